@@ -181,12 +181,12 @@ fn aidx_value(vp: &str, ow: u64, a: u64) -> (u32, u64) {
         other => panic!("driver: unknown value profile {other}"),
     }
 }
-/// presentation: lo -> [size, offset]; hi -> [2^32-1-size, maxoff-offset]
+/// presentation (every value travels as a string): lo -> "size:offset"; hi -> "(2^32-1-size):(maxoff-offset)"
 fn present_aidx(vp: &str, ow: u64, size: u32, off: u64) -> Value {
     let maxoff: u64 = (1u64 << (8 * ow)) - 1;
     match vp {
-        "lo" => json!([small(size as u128), small(off as u128)]),
-        _ => json!([small((u32::MAX - size) as u128), small(maxoff.wrapping_sub(off) as u128)]),
+        "lo" => json!(format!("{}:{}", small(size as u128), small(off as u128))),
+        _ => json!(format!("{}:{}", small((u32::MAX - size) as u128), small(maxoff.wrapping_sub(off) as u128))),
     }
 }
 fn ie_off(e: &cascette_formats::archive::IndexEntry) -> u64 {
@@ -256,11 +256,11 @@ fn ag_value(vp: &str, a: u64) -> (u32, u32) {
         _ => (u32::MAX - a as u32, u32::MAX - a as u32),
     }
 }
-/// presentation: lo -> [archive, offset, size]; hi -> complements to the field maxima
+/// presentation: lo -> "archive:offset:size"; hi -> complements to the field maxima
 fn present_ag(vp: &str, ai: u16, off: u32, size: u32) -> Value {
     match vp {
-        "lo" => json!([ai, small(off as u128), small(size as u128)]),
-        _ => json!([u16::MAX - ai, small((u32::MAX - off) as u128), small((u32::MAX - size) as u128)]),
+        "lo" => json!(format!("{}:{}:{}", ai, small(off as u128), small(size as u128))),
+        _ => json!(format!("{}:{}:{}", u16::MAX - ai, small((u32::MAX - off) as u128), small((u32::MAX - size) as u128))),
     }
 }
 fn run_agroup(p: &Value, run: &mut Run) {
@@ -322,7 +322,10 @@ fn fsize(vp: &str, a: u64) -> u64 {
     if vp == "lo" { a + 1 } else { (1u64 << 40) - 1 - a }
 }
 fn present_fsize(vp: &str, x: u64) -> Value {
-    if vp == "lo" { json!(small(x as u128)) } else { json!(small(((1u64 << 40) - 1).wrapping_sub(x) as u128)) }
+    json!(fsize_text(vp, x))
+}
+fn fsize_text(vp: &str, x: u64) -> String {
+    if vp == "lo" { small(x as u128).to_string() } else { small(((1u64 << 40) - 1).wrapping_sub(x) as u128).to_string() }
 }
 fn build_encoding(p: &Value, n: u64, m: u64, lay: &str, vp: &str, ord: &str) -> EncodingBuilder {
     let nek = u(p, "nek");
@@ -589,7 +592,7 @@ fn run_chain(p: &Value, run: &mut Run) {
             resolver
                 .get_file_info(&path)
                 .iter()
-                .map(|i| json!(format!("{}:{}:{}", hex(i.content_key.as_bytes()), hex(i.encoding_key.as_bytes()), present_fsize(&vp, i.size))))
+                .map(|i| json!(format!("{}:{}:{}", hex(i.content_key.as_bytes()), hex(i.encoding_key.as_bytes()), fsize_text(&vp, i.size))))
                 .collect()
         });
         // second call: answered from the resolver's caches
@@ -665,8 +668,11 @@ fn run_tvfs(p: &Value, run: &mut Run) {
     }
     let mut b = TvfsBuilder::with_flags(flags);
     for j in 0..nest {
-        let body = "z".repeat(estlen.saturating_sub(6) as usize);
-        b.add_est_spec(format!("b:{{{j}={body}}}"));
+        // exactly `estlen` bytes each (estlen >= 7, nest <= 100)
+        let body = "z".repeat(estlen.saturating_sub(7) as usize);
+        let spec = format!("b:{{{j:02}={body}}}");
+        assert!(spec.len() as u64 == estlen, "driver: est spec length");
+        b.add_est_spec(spec);
     }
     for i in order(&ord, n) {
         let a = 2 * i;
